@@ -3,7 +3,10 @@ import ScyllaVerif.Model.Request
 C09, connection-level glue: how `scylla/src/network/connection.rs` turns *what the caller configured on a statement*
 into the protocol-level request record that `Model/Request.lean` then encodes.
 
-* `determineConsistency`   ← `StatementConfig::determine_consistency` (`statement/mod.rs:49-51`).
+* `determineConsistency`   ← `StatementConfig::determine_consistency` (`statement/mod.rs:49-51`), used by the connection
+                              itself only in `execute_iter` (and internal queries); for the `*_with_consistency` methods
+                              consistency and serial consistency are arguments, decided by the `Session` layer
+                              (`sessionConsistency` / `sessionSerial` ← `client/execution.rs:120-155`, `client/pager.rs:176-182`).
 * `requestTimestamp`       ← `statement.get_timestamp().or_else(get_timestamp_from_gen)` (`connection.rs:889-895,
                               1054-1062, 1195-1201`); the generator's next value is an explicit argument.
 * `queryRequest`           ← `Connection::query_raw_with_consistency` (`connection.rs:881-917`): no values, `skip_metadata: false`.
@@ -53,12 +56,14 @@ def requestTimestamp (cfg : StmtConfig) (conn : ConnCtx) : Option Int64 :=
 /-- `serial_consistency.flatten()`. -/
 def requestSerial (cfg : StmtConfig) : Option SerialConsistency := cfg.serialConsistency.join
 
-/-- `query_raw_with_consistency`: the QUERY record of an unprepared statement. -/
-def queryRequest (text : Bytes) (cfg : StmtConfig) (conn : ConnCtx) (pageSize : Option Int32)
-    (pagingState : Option Bytes) : Req :=
+/-- `query_raw_with_consistency(statement, consistency, serial_consistency, page_size, paging_state)`: the QUERY record
+of an unprepared statement.  Consistency and serial consistency are ARGUMENTS of the connection method (decided by the
+caller: `Session`, see `sessionQuery` below); the timestamp and the tracing flag come from the statement. -/
+def queryRequest (text : Bytes) (cons : Consistency) (serial : Option SerialConsistency) (cfg : StmtConfig)
+    (conn : ConnCtx) (pageSize : Option Int32) (pagingState : Option Bytes) : Req :=
   .query text
-    { consistency := determineConsistency cfg conn
-      serialConsistency := requestSerial cfg
+    { consistency := cons
+      serialConsistency := serial
       timestamp := requestTimestamp cfg conn
       pageSize := pageSize
       pagingState := pagingState
@@ -84,13 +89,14 @@ def cachedMetadataParams (p : PreparedInfo) (ext : Bool) : Bool × Option Bytes 
     else none
   (skip, mid)
 
-/-- `execute_raw_with_consistency`: the EXECUTE record. -/
-def executeRequest (p : PreparedInfo) (values : List RawVal) (cfg : StmtConfig) (conn : ConnCtx)
-    (pageSize : Option Int32) (pagingState : Option Bytes) : Req :=
+/-- `execute_raw_with_consistency(prepared, values, consistency, serial_consistency, page_size, paging_state)`: the
+EXECUTE record (consistency / serial consistency are arguments, as for QUERY). -/
+def executeRequest (p : PreparedInfo) (values : List RawVal) (cons : Consistency) (serial : Option SerialConsistency)
+    (cfg : StmtConfig) (conn : ConnCtx) (pageSize : Option Int32) (pagingState : Option Bytes) : Req :=
   let cm := cachedMetadataParams p conn.metadataIdExt
   .execute p.id cm.2
-    { consistency := determineConsistency cfg conn
-      serialConsistency := requestSerial cfg
+    { consistency := cons
+      serialConsistency := serial
       timestamp := requestTimestamp cfg conn
       pageSize := pageSize
       pagingState := pagingState
@@ -128,17 +134,82 @@ def stmtWithCtx : GlueStmt → BatchStmt × Nat
   | .unprepared t => (.query t, 0)
   | .prepared i c => (.prepared i, c)
 
-/-- `batch_with_consistency`: the BATCH body. -/
+/-- `batch_with_consistency(batch, values, consistency, serial_consistency)`: the BATCH body. -/
 def batchRequestBody (server : Bytes → Bytes × Nat) (ty : BatchType) (stmts : List GlueStmt) (rows : List (List RawVal))
-    (cfg : StmtConfig) (conn : ConnCtx) : Except Err Bytes :=
-  encodeBatchA ty ((prepareBatch server stmts rows).map stmtWithCtx) rows (determineConsistency cfg conn)
-    (requestSerial cfg) (requestTimestamp cfg conn)
+    (cons : Consistency) (serial : Option SerialConsistency) (cfg : StmtConfig) (conn : ConnCtx) : Except Err Bytes :=
+  encodeBatchA ty ((prepareBatch server stmts rows).map stmtWithCtx) rows cons serial (requestTimestamp cfg conn)
 
-/-- `execute_iter`: the EXECUTE records of a paged iteration when the server answered the pages with the paging states
-`states` (`none` in the list cannot occur: iteration stops at the first response without a paging state). -/
+/-- `Connection::execute_iter` (`connection.rs:1156-1175`, the single-connection pager): here the connection itself
+decides — `determine_consistency(config.default_consistency)` and `serial_consistency.flatten()` — and sends one EXECUTE
+per page with the statement's page size and the paging state of the previous response (`states`). -/
 def pagerRequests (p : PreparedInfo) (values : List RawVal) (cfg : StmtConfig) (conn : ConnCtx) (pageSize : Int32)
     (states : List Bytes) : List Req :=
-  (none :: states.map some).map (fun st => executeRequest p values cfg conn (some pageSize) st)
+  (none :: states.map some).map (fun st =>
+    executeRequest p values (determineConsistency cfg conn) (requestSerial cfg) cfg conn (some pageSize) st)
+
+/-! ### the `Session` layer: who decides consistency, serial consistency and page size
+
+`RequestExecutionParams::new_for_session_apis` (`client/execution.rs:120-155`) and `PagerWorker` (`client/pager.rs:176-182`):
+the statement's value if it has one, else the execution profile's; the profile is the statement's own
+(`get_execution_profile_handle()`) if set, else the session's default (`session.rs:1046-1050, 1375-1378, 1793-1796`). -/
+
+/-- The two fields of `ExecutionProfileInner` that reach the wire. -/
+structure ExecProfile where
+  consistency : Consistency
+  serialConsistency : Option SerialConsistency
+  deriving Repr, DecidableEq
+
+def chosenProfile (stmtProfile : Option ExecProfile) (sessionDefault : ExecProfile) : ExecProfile :=
+  stmtProfile.getD sessionDefault
+
+/-- `statement_config.consistency.unwrap_or(execution_profile.consistency)`. -/
+def sessionConsistency (cfg : StmtConfig) (p : ExecProfile) : Consistency := cfg.consistency.getD p.consistency
+
+/-- `statement_config.serial_consistency.unwrap_or(execution_profile.serial_consistency)` (`Option<Option<_>>`:
+an explicit `Some(None)` on the statement means *no* serial consistency; unset means the profile's). -/
+def sessionSerial (cfg : StmtConfig) (p : ExecProfile) : Option SerialConsistency :=
+  match cfg.serialConsistency with
+  | some s => s
+  | none => p.serialConsistency
+
+/-- `*_unpaged` passes no page size; `*_single_page` and `*_iter` pass the statement's (validated) page size. -/
+inductive Paging where
+  | unpaged
+  | paged
+  deriving Repr, DecidableEq
+
+def sessionPageSize (m : Paging) (stmtPageSize : Int32) : Option Int32 :=
+  match m with
+  | .unpaged => none
+  | .paged => some stmtPageSize
+
+/-- `Session::query_unpaged / query_single_page / query_iter` (one page of it). -/
+def sessionQuery (text : Bytes) (cfg : StmtConfig) (stmtProfile : Option ExecProfile) (sessionDefault : ExecProfile)
+    (conn : ConnCtx) (m : Paging) (stmtPageSize : Int32) (pagingState : Option Bytes) : Req :=
+  let prof := chosenProfile stmtProfile sessionDefault
+  queryRequest text (sessionConsistency cfg prof) (sessionSerial cfg prof) cfg conn (sessionPageSize m stmtPageSize)
+    pagingState
+
+/-- `Session::execute_unpaged / execute_single_page / execute_iter` (one page of it). -/
+def sessionExecute (p : PreparedInfo) (values : List RawVal) (cfg : StmtConfig) (stmtProfile : Option ExecProfile)
+    (sessionDefault : ExecProfile) (conn : ConnCtx) (m : Paging) (stmtPageSize : Int32) (pagingState : Option Bytes) : Req :=
+  let prof := chosenProfile stmtProfile sessionDefault
+  executeRequest p values (sessionConsistency cfg prof) (sessionSerial cfg prof) cfg conn
+    (sessionPageSize m stmtPageSize) pagingState
+
+/-- `Session::batch`. -/
+def sessionBatchBody (server : Bytes → Bytes × Nat) (ty : BatchType) (stmts : List GlueStmt) (rows : List (List RawVal))
+    (cfg : StmtConfig) (stmtProfile : Option ExecProfile) (sessionDefault : ExecProfile) (conn : ConnCtx) :
+    Except Err Bytes :=
+  let prof := chosenProfile stmtProfile sessionDefault
+  batchRequestBody server ty stmts rows (sessionConsistency cfg prof) (sessionSerial cfg prof) cfg conn
+
+/-- The requests of a paged session-level iteration (`query_iter` / `execute_iter`): first page without a paging
+state, then the server's previous state each time. -/
+def sessionIterExecutes (p : PreparedInfo) (values : List RawVal) (cfg : StmtConfig) (stmtProfile : Option ExecProfile)
+    (sessionDefault : ExecProfile) (conn : ConnCtx) (stmtPageSize : Int32) (states : List Bytes) : List Req :=
+  (none :: states.map some).map (fun st =>
+    sessionExecute p values cfg stmtProfile sessionDefault conn .paged stmtPageSize st)
 
 /-! ### STARTUP -/
 
@@ -159,21 +230,51 @@ def compressionName : Compression → Bytes
   | .lz4 => ascii "lz4"
   | .snappy => ascii "snappy"
 
-/-- The STARTUP options map (as a list of entries; the order on the wire is the `HashMap`'s).  Keys and advertised
-values are the constants re-extracted from the source (`Generated.startup_*`). -/
-def startupOptions (n : Negotiated) (configured : Option Compression) : List (Bytes × Bytes) :=
+/-- `SelfIdentity` (`client/self_identity.rs`): custom driver name / version (else the defaults), optional application
+name / version and client id. -/
+structure Identity where
+  driverName : Option Bytes := none
+  driverVersion : Option Bytes := none
+  applicationName : Option Bytes := none
+  applicationVersion : Option Bytes := none
+  clientId : Option Bytes := none
+  deriving Repr, DecidableEq
+
+def optEntry (key : Bytes) : Option Bytes → List (Bytes × Bytes)
+  | some v => [(key, v)]
+  | none => []
+
+/-- `SelfIdentity::add_startup_options` (`connection.rs:236-274`). -/
+def identityOptions (id : Identity) : List (Bytes × Bytes) :=
+  [(Generated.startup_key_DRIVER_NAME, id.driverName.getD Generated.startup_DRIVER_NAME_value),
+   (Generated.startup_key_DRIVER_VERSION, id.driverVersion.getD Generated.startup_DRIVER_VERSION_value)] ++
+  optEntry Generated.startup_key_APPLICATION_NAME id.applicationName ++
+  optEntry Generated.startup_key_APPLICATION_VERSION id.applicationVersion ++
+  optEntry Generated.startup_key_CLIENT_ID id.clientId
+
+/-- `ProtocolFeatures::add_startup_options`. -/
+def featureOptions (n : Negotiated) : List (Bytes × Bytes) :=
   (if n.rateLimitError then [(Generated.startup_key_RATE_LIMIT_ERROR, [])] else []) ++
   (match n.lwtMask with
    | some m => [(Generated.startup_key_LWT_MARK, Generated.startup_LWT_MASK_field ++ ascii ("=" ++ toString m))]
    | none => []) ++
   (if n.tabletsV1 then [(Generated.startup_key_TABLETS_ROUTING_V1, [])] else []) ++
-  (if n.metadataId then [(Generated.startup_key_USE_METADATA_ID, [])] else []) ++
-  [(Generated.startup_key_CQL_VERSION, Generated.startup_CQL_VERSION_value),
-   (Generated.startup_key_DRIVER_NAME, Generated.startup_DRIVER_NAME_value),
-   (Generated.startup_key_DRIVER_VERSION, Generated.startup_DRIVER_VERSION_value)] ++
-  (match configured with
-   | some c => if n.compressionSupported then [(Generated.startup_key_COMPRESSION, compressionName c)] else []
-   | none => [])
+  (if n.metadataId then [(Generated.startup_key_USE_METADATA_ID, [])] else [])
+
+def compressionOption (n : Negotiated) (configured : Option Compression) : List (Bytes × Bytes) :=
+  match configured with
+  | some c => if n.compressionSupported then [(Generated.startup_key_COMPRESSION, compressionName c)] else []
+  | none => []
+
+/-- The STARTUP options map (as a list of entries; the order on the wire is the `HashMap`'s).  Keys and advertised
+values are the constants re-extracted from the source (`Generated.startup_*`). -/
+def startupOptionsId (id : Identity) (n : Negotiated) (configured : Option Compression) : List (Bytes × Bytes) :=
+  featureOptions n ++ [(Generated.startup_key_CQL_VERSION, Generated.startup_CQL_VERSION_value)] ++
+  identityOptions id ++ compressionOption n configured
+
+/-- With the default identity. -/
+def startupOptions (n : Negotiated) (configured : Option Compression) : List (Bytes × Bytes) :=
+  startupOptionsId {} n configured
 
 /-- The compression actually used after STARTUP: the configured one if the server supports it, else none. -/
 def effectiveCompression (n : Negotiated) (configured : Option Compression) : Option Compression :=
